@@ -98,7 +98,7 @@ func (s *Service) String() string { return fmt.Sprintf("Service<%s>", s.Name) }
 
 // Running returns true as soon as start returns, and returns false
 // after close is called.
-func (s *Service) Running() bool { return s.isRunning.Load() }
+func (s *Service) Running() bool { return s.isRunning.Load() && !s.isFinished.Load() }
 
 // Start launches the configured service and tracks  its lifecycle. If
 // the context is canceled, the service returns, and any errors
